@@ -77,7 +77,9 @@ def bounce_obligations(qw):
             continue
         for rcpt, reply in sorted(led['failed'].items()):
             recs = [b for b in qw.bounces if rcpt in b['rcpts'] and b['sender'] == led['sender']]
-            if not recs:
+            if recs and all(b.get('raised') for b in recs):
+                out.append(('bounce-could-not-be-built', 'recipient %s of %s failed (%r) but building its bounce raised %s' % (rcpt, qid, reply, recs[0]['raised'])))
+            elif not recs:
                 out.append(('failed-recipient-not-bounced', 'recipient %s of %s failed (%r) but no bounce was built for it' % (rcpt, qid, reply)))
             elif all(b['produced'] and not b['enqueued'] for b in recs):
                 out.append(('bounce-not-enqueued', 'bounce for %s of %s was built but never handed to the bounce queue' % (rcpt, qid)))
